@@ -10,7 +10,7 @@ import PprofVerif.Gen.ConfigFields
    floats  = list of (x<text> opt x<canonical>)   -- graph of strconv.ParseFloat∘fmt.Sprint on the texts of the case
    req     = `save query` | `delete x<name>`
    fsop    = `open fd x<name> creat trunc excl` | `write fd x<data>` | `fsync fd` | `close fd`
-           | `rename x<src> x<dst>` | `unlink x<name>` -/
+           | `rename x<src> x<dst>` | `unlink x<name>` | `restart` -/
 namespace Driver.C19
 open PV PV.Settings
 
@@ -51,6 +51,7 @@ def fsop : Rd FS.Op := do
   | "close" => do let fd ← Rd.nat; pure (.close fd)
   | "rename" => do let a ← Rd.str; let b ← Rd.str; pure (.rename a b)
   | "unlink" => do let a ← Rd.str; pure (.unlink a)
+  | "restart" => pure .restart
   | _ => failure
 end R
 
